@@ -68,6 +68,10 @@ def gen(t):
     add('nextFrameI', '%s& m, const %s& p, const %s& q, %s& ti, %s& tj' % (M[4], V[3], V[3], V[3], V[3]), '%s I; m = nextFrame(I, p, q, ti, tj);' % M[4], kind='next', rows='nextI')
     add('nextFrameM', '%s& m, const %s& Mi, const %s& p, const %s& q, %s& ti, %s& tj' % (M[4], M[4], V[3], V[3], V[3], V[3]), 'm = nextFrame(Mi, p, q, ti, tj);', kind='next', rows='nextM')
     add('lastFrame', '%s& m, const %s& Mi, const %s& p, const %s& q' % (M[4], M[4], V[3], V[3]), 'm = lastFrame(Mi, p, q);', kind='next', rows='last')
+    # addOffset: Scale(s) * [Rotation(r in degrees) with translation row t] * inMat * ref, through the builders decided above
+    add('addOffset', '%s& o, const %s& in, const %s& t, const %s& r, const %s& s, const %s& ref' % (M[4], M[4], V[3], V[3], V[3], M[4]), 'o = addOffset(in, t, r, s, ref);', kind='compose', of='addOffset_ref')
+    add('addOffset_ref', '%s& o, const %s& in, const %s& t, const %s& r, const %s& s, const %s& ref' % (M[4], M[4], V[3], V[3], V[3], M[4]),
+        '%s O; %s rr(r); rr *= %s(M_PI / 180.0); O.setEulerAngles(rr); O[3][0] = t.x; O[3][1] = t.y; O[3][2] = t.z; %s S; S.setScale(s); o = S * O * in * ref;' % (M[4], V[3], E, M[4]), kind='aux')
     return tu
 
 def trig(name, x, lt):
@@ -178,13 +182,25 @@ def main(rep, ws, tier):
             oid = '%s<%s>' % (name[2:], E)
             S = R.get(name)
             kind = m['kind']
-            rule = {'set': 'R09.set', 'pre': 'R09.pre', 'post': 'R09.pre', 'trow': 'R09.point', 'frame': 'R09.frame', 'next': 'R09.frame'}[kind]
+            if kind == 'aux': continue
+            rule = {'set': 'R09.set', 'pre': 'R09.pre', 'post': 'R09.pre', 'trow': 'R09.point', 'frame': 'R09.frame', 'next': 'R09.frame', 'compose': 'R09.pre'}[kind]
             if S is None:
                 rep.ob(oid, rule, UNDECIDED, R.err.get(name, 'not analysed')); continue
             where = fn_where(S.fn)
             if any(e.kind != 'ret' for e in S.exits) and not (kind == 'frame' and all(e.kind in ('ret', 'throw') for e in S.exits)):
                 rep.ob(oid, rule, VIOLATED, 'unexpected exits %s' % [e.kind for e in S.exits], where); continue
             try:
+                if kind == 'compose':
+                    Sr = R.get('w_' + m['of'])
+                    if Sr is None:
+                        rep.ob(oid, rule, UNDECIDED, R.err.get('w_' + m['of'], 'reference composition not analysed'), where); continue
+                    ctx = P.Ctx(); bad = None
+                    for i in range(16):
+                        a_, b_ = ctx.rat(S.out('a0', i * sz, sz, lt)), ctx.rat(Sr.out('a0', i * sz, sz, lt))
+                        if not ctx.requal(a_, b_):
+                            bad = 'entry [%d][%d] is %s; Scale(s) * [Rotation(r deg) | t] * inMat * ref has %s' % (i // 4, i % 4, P.show_rat(a_, ctx)[:160], P.show_rat(b_, ctx)[:160]); break
+                    rep.ob(oid, rule, VIOLATED if bad else HOLDS, bad or 'Scale(s) * [Rotation(r in degrees), translation row t] * inMat * ref, entry by entry (the builders are decided by R09.set, the products by C05)', where)
+                    continue
                 if kind == 'trow':
                     d = m['d']
                     outs = [S.out('a0', i * sz, sz, lt) for i in range(d - 1)]
@@ -685,6 +701,23 @@ def check_range(rep, oid, S, t, where):
         if x.op == 'call' and x.attr == 'sqrt':
             d = degree(x.args[0])
             degs[d] = degs.get(d, 0) + 1
+    # a scale-dependent quantity compared with an absolute non-zero constant (other than the tiny-length threshold of length()
+    # itself): the frame would then change under a uniform scaling of the arguments, although it depends on directions only
+    thr = []
+    for o in outs:
+        for c in P.all_conds(o):
+            if c.op != 'fcmp' or c in [t_[0] for t_ in thr]: continue
+            for ci, xi in ((0, 1), (1, 0)):
+                k, x = c.args[ci], c.args[xi]
+                if k.op != 'const' or x.op == 'const': continue
+                v = T.const_value(k)
+                if isinstance(v, str) or v == 0 or abs(v) < Fraction(1, 10 ** 30) or abs(v) >= FLT_MAX: continue
+                d = degree(x)
+                if d != 0: thr.append((c, float(v), d))
+    if thr:
+        c, v, d = thr[0]
+        rep.ob(oid + '#range[threshold]', 'R09.range', VIOLATED, 'a quantity of homogeneity degree %s in the arguments is compared with the absolute constant %g (%s): the outcome of the test, and with it the frame, changes when all arguments are scaled by a common factor, although only their directions matter' % (d, v, T.show(c, 3)[:120]), where)
+        return
     if not degs:
         rep.ob(oid + '#range', 'R09.range', UNDECIDED, 'no length computation found', where); return
     big = sorted(d for d in degs if d > 2)
